@@ -11,7 +11,10 @@ func (p *Pool) Stop() {
 		return
 	}
 
+	p.stopM.Lock()
 	p.cancel()
+	p.stopM.Unlock()
+
 	p.sendWg.Wait()
 	p.runWg.Wait()
 
